@@ -26,6 +26,7 @@ from typing import cast
 
 from explorerscript.antlr.ExplorerScriptParser import ExplorerScriptParser
 from explorerscript.antlr.ExplorerScriptVisitor import ExplorerScriptVisitor
+from explorerscript.error import SsbCompilerError
 from explorerscript.macro import ExplorerScriptMacro
 from explorerscript.source_map import SourceMapBuilder
 from explorerscript.ssb_converting.compiler.compile_handlers.abstract import AnyCompileHandler
@@ -36,6 +37,7 @@ from explorerscript.ssb_converting.compiler.compile_handlers.functions.simple_de
 from explorerscript.ssb_converting.compiler.compiler_visitor.statement_visitor import StatementVisitor
 from explorerscript.ssb_converting.compiler.utils import CompilerCtx, Counter
 from explorerscript.ssb_converting.ssb_data_types import SsbRoutineInfo, SsbOperation
+from explorerscript.util import f, _
 
 
 class RoutineVisitor(ExplorerScriptVisitor):
@@ -122,6 +124,11 @@ class RoutineVisitor(ExplorerScriptVisitor):
         self._root_handler.add(IntegerLikeCompileHandler(ctx, self.compiler_ctx))
 
     def _enlarge_routine_info(self) -> None:
+        if self._active_routine_id < 0 or self._active_routine_id > len(self.routine_infos):
+            # Routine ids start at 0 and increment by one, there must not be a gap.
+            raise SsbCompilerError(
+                f(_("Invalid routine id {self._active_routine_id}: routine ids must start at 0 and must not leave a gap."))
+            )
         if len(self.routine_infos) - 1 < self._active_routine_id:
             needed = self._active_routine_id - len(self.routine_infos) + 1
             for i in range(0, needed):
